@@ -528,6 +528,9 @@ class FST:
                                            s_to,
                                            out_symbols)
         for node in graph.nodes:
+            if "is_start" in graph.nodes[node]:
+                # A state, even without transition
+                fst.states.add(node)
             if graph.nodes[node].get("is_start", False):
                 fst.add_start_state(node)
             if graph.nodes[node].get("is_final", False):
